@@ -1,10 +1,10 @@
 #!/bin/bash
 # confirm every finished later-batch worktree change that is not yet under seeded/
 cd /verif
-for wt in /tmp/mut2-C* /tmp/mut3-C* /tmp/mut4-C*; do
+for wt in /tmp/mut2-C* /tmp/mut3-C* /tmp/mut4-C* /tmp/mut5-C*; do
   [ -d $wt ] || continue
-  pid=$(basename $wt | sed "s/mut[234]-//")
-  for v in C D E F G H; do
+  pid=$(basename $wt | sed "s/mut[2345]-//")
+  for v in C D E F G H I J; do
     lc=$(echo $v | tr 'A-Z' 'a-z')
     [ -f $wt/out/$v/meta.json ] || continue
     [ -d seeded/$pid-$lc ] && continue
